@@ -446,9 +446,9 @@ End WithDigest.
 (* ------------------------------------------------------------------ *)
 (* prepare_ephemeral_key                                                *)
 (* ------------------------------------------------------------------ *)
-Lemma epk_public gen rk eph hdr e hdr' :
-  prepare_ephemeral_key gen rk eph hdr = Ok (e, hdr') ->
-  e = match eph with Some x => x | None => gen rk end /\
+Lemma epk_public gen rk eph g hdr e hdr' :
+  prepare_ephemeral_key gen rk eph g hdr = Ok (e, hdr') ->
+  e = ephemeral_in_use gen rk eph g /\
   dget hdr' s_epk = Some (PDict (pub_view (kreg e) (k_dict e))) /\
   (forall m, m <> s_epk -> dget hdr' m = dget hdr m).
 Proof.
@@ -636,15 +636,16 @@ Lemma oct_thumbprint_exception :
   fields_public value_registry_oct = false.
 Proof. vm_compute. repeat split; reflexivity. Qed.
 
-Lemma epk_public_spec gen rk eph hdr e hdr' :
-  prepare_ephemeral_key gen rk eph hdr = Ok (e, hdr') ->
+Lemma epk_public_spec gen rk eph g hdr e hdr' :
+  prepare_ephemeral_key gen rk eph g hdr = Ok (e, hdr') ->
+  e = ephemeral_in_use gen rk eph g /\
   exists v, dget hdr' s_epk = Some (PDict v) /\
     v = pub_view (kreg e) (k_dict e) /\
     (forall m, In m (spec_private (k_kind e)) -> ~ In m (dkeys v)) /\
     (forall m, member_private (kreg e) m = false -> dget v m = dget (k_dict e) m) /\
     (forall m, m <> s_epk -> dget hdr' m = dget hdr m).
 Proof.
-  intro E. apply epk_public in E. destruct E as [_ [A B]].
+  intro E. apply epk_public in E. destruct E as [E0 [A B]]. split; [exact E0|].
   exists (pub_view (kreg e) (k_dict e)). repeat split; auto.
   - intros m Hs Hin. apply pub_view_keys in Hin. unfold kreg in Hin.
     rewrite member_private_spec in Hin. apply str_mem_In in Hs. congruence.
@@ -653,13 +654,13 @@ Qed.
 
 Lemma epk_ni gen rk e1 e2 hdr :
   k_kind e1 = k_kind e2 -> pub_view (kreg e1) (k_dict e1) = pub_view (kreg e2) (k_dict e2) ->
-  match prepare_ephemeral_key gen rk (Some e1) hdr, prepare_ephemeral_key gen rk (Some e2) hdr with
+  match prepare_ephemeral_key gen rk (Some e1) false hdr, prepare_ephemeral_key gen rk (Some e2) false hdr with
   | Ok (_, h1), Ok (_, h2) => h1 = h2
   | Err a, Err b => a = b
   | _, _ => False
   end.
 Proof.
-  intros K E. unfold prepare_ephemeral_key, key_as_dict.
+  intros K E. unfold prepare_ephemeral_key, key_as_dict, ephemeral_in_use.
   destruct (key_agreement_type (k_kind rk)); cbn [negb bind]; [|reflexivity].
   rewrite !as_dict_false. cbn [bind dupdate fold_left]. rewrite E. reflexivity.
 Qed.
